@@ -56,3 +56,30 @@ func (state *State) VerifLastSaved() bitcoin.Hash32 {
 	defer state.lock.Unlock()
 	return state.lastSavedHash
 }
+
+// ---- MemPool ----
+
+// VerifIndex returns the spender list of an outpoint hash (nil, false when absent).
+func (memPool *MemPool) VerifIndex(outpointHash bitcoin.Hash32) ([]bitcoin.Hash32, bool) {
+	memPool.mutex.Lock()
+	defer memPool.mutex.Unlock()
+	l, ok := memPool.inputs[outpointHash]
+	if !ok {
+		return nil, false
+	}
+	r := make([]bitcoin.Hash32, len(l))
+	copy(r, l)
+	return r, true
+}
+
+// VerifAge shifts the stored request and first-seen times back by d.
+func (memPool *MemPool) VerifAge(d time.Duration) {
+	memPool.mutex.Lock()
+	defer memPool.mutex.Unlock()
+	for k, t := range memPool.requests {
+		memPool.requests[k] = t.Add(-d)
+	}
+	for _, tx := range memPool.txs {
+		tx.time = tx.time.Add(-d)
+	}
+}
